@@ -202,8 +202,9 @@ structure FlowUpd (f f' : Flow) : Prop where
   actionUids : f'.actionUids = f.actionUids
   status : f'.status = f.status ∨ f'.status = .stopped ∨ f'.status = .finished
   children : ∀ c, c ∈ f'.children → c ∈ f.children
+  activated : f'.activated ≤ f.activated
 
-theorem FlowUpd.rfl' (f : Flow) : FlowUpd f f := ⟨rfl, rfl, rfl, rfl, rfl, Or.inl rfl, fun _ h => h⟩
+theorem FlowUpd.rfl' (f : Flow) : FlowUpd f f := ⟨rfl, rfl, rfl, rfl, rfl, Or.inl rfl, fun _ h => h, by simp⟩
 
 /-- `FlowFailed` / `FlowFinished`: the only internal events pushed (appended) inside the recursion -/
 def IEv.isEnd : IEv → Bool
@@ -271,7 +272,7 @@ theorem deactLoop_steps {x : Bool} (rec : State → Nat → Except Err State)
       · split at h
         · next s1 h1 =>
           exact (hrec _ _ _ h1).trans
-            ((Steps.modFlow s1 c (fun f => { f with activated := 0 }) (fun f => ⟨rfl, rfl, rfl, rfl, rfl, Or.inl rfl, fun _ h => h⟩)).trans
+            ((Steps.modFlow s1 c (fun f => { f with activated := 0 }) (fun f => ⟨rfl, rfl, rfl, rfl, rfl, Or.inl rfl, fun _ h => h, by simp⟩)).trans
               (deactLoop_steps rec hrec fid cs _ s' h))
         · cases h
       · exact deactLoop_steps rec hrec fid cs s s' h
@@ -319,10 +320,10 @@ theorem deactivatePhase_steps {x : Bool} (rec : State → Nat → Except Err Sta
       · split at h
         · next s2 h2 =>
           cases h
-          exact .cons (.flow (f' := { f with activated := f.activated - 1 }) hf ⟨rfl, rfl, rfl, rfl, rfl, Or.inl rfl, fun _ h => h⟩) (deactLoop_steps rec hrec _ _ _ _ h2)
+          exact .cons (.flow (f' := { f with activated := f.activated - 1 }) hf ⟨rfl, rfl, rfl, rfl, rfl, Or.inl rfl, fun _ h => h, by simp⟩) (deactLoop_steps rec hrec _ _ _ _ h2)
         · cases h
       · cases h
-        exact .single (.flow (f' := { f with activated := f.activated - 1 }) hf ⟨rfl, rfl, rfl, rfl, rfl, Or.inl rfl, fun _ h => h⟩)
+        exact .single (.flow (f' := { f with activated := f.activated - 1 }) hf ⟨rfl, rfl, rfl, rfl, rfl, Or.inl rfl, fun _ h => h, by simp⟩)
 
 theorem removeFromParent_steps {x : Bool} (s : State) (u : Nat) (s' : State) (h : removeFromParent s u = .ok s') :
     Steps x s s' := by
@@ -337,7 +338,7 @@ theorem removeFromParent_steps {x : Bool} (s : State) (u : Nat) (s' : State) (h 
         · next pf hpf =>
           split at h
           · cases h
-            exact .single (.flow (f' := { pf with children := pf.children.erase u }) hpf ⟨rfl, rfl, rfl, rfl, rfl, Or.inl rfl, fun c hc => List.mem_of_mem_erase hc⟩)
+            exact .single (.flow (f' := { pf with children := pf.children.erase u }) hpf ⟨rfl, rfl, rfl, rfl, rfl, Or.inl rfl, fun c hc => List.mem_of_mem_erase hc, by simp⟩)
           · cases h
     · cases h; exact .refl _
 
@@ -372,9 +373,9 @@ theorem abortBody_steps {x : Bool} (rec : State → Nat → Except Err State)
               right
               refine ⟨_, ?_, h⟩
               refine (childLoop_steps rec hrec _ _ _ h1).trans ((stopActions_steps _ _ _ h2).trans ?_)
-              refine (Steps.modFlow s2 u (fun f => { f with heads := 0 }) (fun f => ⟨rfl, rfl, rfl, rfl, rfl, Or.inl rfl, fun _ h => h⟩)).trans ?_
+              refine (Steps.modFlow s2 u (fun f => { f with heads := 0 }) (fun f => ⟨rfl, rfl, rfl, rfl, rfl, Or.inl rfl, fun _ h => h, by simp⟩)).trans ?_
               refine (removeFromParent_steps _ _ _ h4).trans ?_
-              refine (Steps.modFlow s4 u (fun f => { f with status := .stopped }) (fun f => ⟨rfl, rfl, rfl, rfl, rfl, Or.inr (Or.inl rfl), fun _ h => h⟩)).trans ?_
+              refine (Steps.modFlow s4 u (fun f => { f with status := .stopped }) (fun f => ⟨rfl, rfl, rfl, rfl, rfl, Or.inr (Or.inl rfl), fun _ h => h, by simp⟩)).trans ?_
               exact .single (.push _ rfl)
 
 /-- every `_abort_flow(.., deactivate_flow=True)` call (all nested calls are of this kind) is a sequence of inner steps -/
@@ -444,7 +445,7 @@ theorem finishBody_steps (rec : State → Nat → Except Err State)
           · next s2 h2 =>
             dsimp only at h
             refine (childLoop_steps rec hrec _ _ _ h1).trans ((stopActions_steps _ _ _ h2).trans ?_)
-            refine (Steps.modFlow s2 u (fun f => { f with heads := 0 }) (fun f => ⟨rfl, rfl, rfl, rfl, rfl, Or.inl rfl, fun _ h => h⟩)).trans ?_
+            refine (Steps.modFlow s2 u (fun f => { f with heads := 0 }) (fun f => ⟨rfl, rfl, rfl, rfl, rfl, Or.inl rfl, fun _ h => h, by simp⟩)).trans ?_
             split at h
             · cases h
               generalize (modFlow s2 u fun f => { f with heads := 0 }) = s3
@@ -455,7 +456,7 @@ theorem finishBody_steps (rec : State → Nat → Except Err State)
             · split at h
               · cases h
               · next s5 h5 =>
-                refine (Steps.modFlow _ u (fun f => { f with status := .finished }) (fun f => ⟨rfl, rfl, rfl, rfl, rfl, Or.inr (Or.inr rfl), fun _ h => h⟩)).trans ?_
+                refine (Steps.modFlow _ u (fun f => { f with status := .finished }) (fun f => ⟨rfl, rfl, rfl, rfl, rfl, Or.inr (Or.inr rfl), fun _ h => h, by simp⟩)).trans ?_
                 refine (removeFromParent_steps _ _ _ h5).trans ?_
                 exact (Steps.single (.push _ rfl)).trans (restart_steps _ _ _ _ h)
 
@@ -481,7 +482,7 @@ theorem endScope_steps (n : Nat) (s : State) (u nm : Nat) (s' : State) (h : endS
       split at h
       · cases h
       · next s2 h2 =>
-        refine .cons (.flow (f' := { f with scopes := scopeErase nm f.scopes }) hf ⟨rfl, rfl, rfl, rfl, rfl, Or.inl rfl, fun _ h => h⟩) ?_
+        refine .cons (.flow (f' := { f with scopes := scopeErase nm f.scopes }) hf ⟨rfl, rfl, rfl, rfl, rfl, Or.inl rfl, fun _ h => h, by simp⟩) ?_
         exact (scopeFlowLoop_steps _ (fun s c s' h => abortFlow_steps n s c false s' h) _ _ _ h2).trans (stopActions_steps _ _ _ h)
 
 /-! ### invariants of the primitive steps that only concern actions and outgoing events -/
@@ -639,6 +640,7 @@ theorem FlowUpd.trans {f g h : Flow} (h1 : FlowUpd f g) (h2 : FlowUpd g h) : Flo
     · exact Or.inr (Or.inl e)
     · exact Or.inr (Or.inr e)
   children := fun c hc => h1.children c (h2.children c hc)
+  activated := Nat.le_trans h2.activated h1.activated
 
 theorem FlowUpd.not_listening {f g : Flow} (h : FlowUpd f g) (hn : f.status.listening = false) : g.status.listening = false := by
   rcases h.status with e | e | e <;> rw [e]
